@@ -78,6 +78,7 @@ ThFreeze == CtxWF(d) => /\ Len(d.objs) > 0 /\ Len(d.props) > 0
                         /\ FillRatio(d)[1] <= FillRatio(d)[2]
 
 (* behaviours for spec -> code replay: printed as JSON at the depth bound (used with -simulate) *)
-CONSTANT EmitDepth
-EmitHist == IF Len(hist) = EmitDepth THEN PrintT(<<"HIST", ToJson(hist)>>) ELSE TRUE
+CONSTANTS EmitDepth, EmitOneIn
+EmitHist == IF Len(hist) = EmitDepth /\ RandomElement(1..EmitOneIn) = 1
+            THEN PrintT(<<"HIST", ToJson([i \in 1..Len(hist) |-> hist[i].call])>>) ELSE TRUE
 =============================================================================
